@@ -1,6 +1,7 @@
 import KoordVerif.Proofs.C07Base
 import KoordVerif.Proofs.C07Ext
 import KoordVerif.Model.C07RO
+import KoordVerif.Model.C07Shape
 /-
 C07 — property theorems (DESIGN.md §4 C07).  All amounts are read value-wise: `drVal d minor k` is the
 amount of resource dimension `k` on device `minor`, a missing map entry or key counting as 0.
@@ -1519,5 +1520,212 @@ theorem device_garbage_noop (s : TState) (sh so sn : Shape) (nt : DevRes) :
     simp [devOps, hd, run]
   · intro h; simp [devOps, h, run]
   · intro h; simp only [devOps, h]; rfl
+
+/-! ### the request-shape table -/
+
+theorem floor_bounds (x n : Nat) (hn : 0 < n) : n * (x / n) ≤ x ∧ x < n * (x / n) + n := by
+  have h1 := Nat.div_add_mod x n
+  have h2 := Nat.mod_lt x hn
+  constructor <;> omega
+
+theorem ratioCount_pos (o : Option Nat) : 0 < ratioCount o := by
+  cases o with
+  | none => simp [ratioCount]
+  | some x =>
+    simp only [ratioCount]
+    split
+    · rename_i h
+      simp only [Bool.and_eq_true, decide_eq_true_eq] at h
+      omega
+    · omega
+
+theorem ratioCount_dvd (x : Nat) : x % ratioCount (some x) = 0 := by
+  simp only [ratioCount]
+  split
+  · rename_i h
+    simp only [Bool.and_eq_true, decide_eq_true_eq, beq_iff_eq] at h
+    have h100 : x = 100 * (x / 100) := by have := Nat.div_add_mod x 100; omega
+    conv => lhs; lhs; rw [h100]
+    exact Nat.mul_mod_left 100 (x / 100)
+  · exact Nat.mod_one x
+
+theorem desiredCount_pos (d : DevReq) : 0 < desiredCount d := by
+  unfold desiredCount
+  cases d.sh with
+  | none => exact ratioCount_pos _
+  | some s =>
+    simp only []
+    split
+    · assumption
+    · exact ratioCount_pos _
+
+/-- gpu-shared and a ratio reach the allocator together only if the validator found the ratio a multiple of the count -/
+theorem convertNZ_shared_ratio (q : PodGPUReq) (d : DevReq) (s x : Nat) (hc : convertNZ q = .ok d)
+    (hs : d.sh = some s) (hx : d.ra = some x) : x % s = 0 := by
+  unfold convertNZ at hc
+  split at hc <;> (try split at hc) <;> cases hc <;> simp_all [sharedOK, optAll]
+
+/-- every accepted pod is asked at least one device -/
+theorem shape_count_pos (r : PodGPUReq) (g : GPUShape) (h : podShape r = .ok g) : 1 ≤ g.count := by
+  unfold podShape at h
+  cases hc : convert r with
+  | skip => simp [hc] at h
+  | err => simp [hc] at h
+  | ok d =>
+    simp only [hc, ShapeRes.ok.injEq] at h
+    subst h
+    have := desiredCount_pos d
+    unfold perGPU
+    cases d.ra <;> cases d.me <;> simp <;> omega
+
+/-- per-device amounts are the requested totals split by floor division: in every dimension the pod is asked
+    `count × per-device ≤ requested` and loses less than `count` units -/
+theorem shape_split_bounds (d : DevReq) :
+    let g := perGPU d
+    (∀ c p, d.co = some c → g.co = some p → g.count * p ≤ c ∧ c < g.count * p + g.count) ∧
+    (∀ x p, d.ra = some x → g.ra = some p → g.count * p ≤ x ∧ x < g.count * p + g.count) ∧
+    (∀ m p, d.me = some m → g.me = some p → g.count * p ≤ m ∧ m < g.count * p + g.count) := by
+  have hn := desiredCount_pos d
+  simp only []
+  refine ⟨?_, ?_, ?_⟩
+  · intro c p hc hp
+    have : p = c / desiredCount d ∧ (perGPU d).count = desiredCount d := by
+      unfold perGPU at hp ⊢
+      cases hra : d.ra <;> cases hme : d.me <;> simp_all
+    rw [this.1, this.2]; exact floor_bounds c _ hn
+  · intro x p hx hp
+    have : p = x / desiredCount d ∧ (perGPU d).count = desiredCount d := by
+      unfold perGPU at hp ⊢
+      simp_all
+    rw [this.1, this.2]; exact floor_bounds x _ hn
+  · intro m p hm hp
+    have : p = m / desiredCount d ∧ (perGPU d).count = desiredCount d := by
+      unfold perGPU at hp ⊢
+      cases hra : d.ra <;> simp_all
+    rw [this.1, this.2]; exact floor_bounds m _ hn
+
+/-- whole GPUs by vendor resource: nvidia.com/gpu = n asks n devices, each whole -/
+theorem shape_vendor (n : Nat) (hn : 0 < n) :
+    podShape { nv := some n, kg := none, sh := none, co := none, me := none, ra := none }
+      = .ok { count := n, shared := false, co := some 100, me := none, ra := some 100 } := by
+  have hnz : nz (some n) = some n := by
+    cases n with
+    | zero => omega
+    | succ k => rfl
+  have hconv : convert { nv := some n, kg := none, sh := none, co := none, me := none, ra := none }
+      = .ok { sh := none, co := some (n * 100), me := none, ra := some (n * 100) } := by
+    have hnn : nz none = none := rfl
+    simp only [convert, PodGPUReq.removeZeros, hnz, hnn]
+    rfl
+  simp only [podShape, hconv]
+  by_cases h1 : n = 1
+  · subst h1; decide
+  · have hx : (n * 100 > 100 && n * 100 % 100 == 0) = true := by
+      simp only [Bool.and_eq_true, decide_eq_true_eq, beq_iff_eq]
+      exact ⟨by omega, Nat.mul_mod_left n 100⟩
+    have hd : n * 100 / 100 = n := Nat.mul_div_cancel n (by omega)
+    have hdn : n * 100 / n = 100 := by rw [Nat.mul_comm]; exact Nat.mul_div_cancel 100 hn
+    have hcount : desiredCount { sh := none, co := some (n * 100), me := none, ra := some (n * 100) } = n := by
+      simp only [desiredCount, ratioCount, hx, if_true, hd]
+    simp only [perGPU, hcount, Option.map_some, hdn]
+    simp
+
+/-- the memory-ratio dimension is never rounded: count × per-device ratio = requested ratio for every accepted pod -/
+theorem shape_ratio_exact (r : PodGPUReq) (d : DevReq) (x p : Nat) (hc : convert r = .ok d)
+    (hx : d.ra = some x) (hp : (perGPU d).ra = some p) : (perGPU d).count * p = x := by
+  have hpn : p = x / desiredCount d ∧ (perGPU d).count = desiredCount d := by
+    unfold perGPU at hp ⊢
+    simp_all
+  rw [hpn.1, hpn.2]
+  have hdiv : x % desiredCount d = 0 := by
+    unfold desiredCount
+    cases hs : d.sh with
+    | none => simp only [hx]; exact ratioCount_dvd x
+    | some s =>
+      have hok : x % s = 0 := convertNZ_shared_ratio _ d s x hc hs hx
+      simp only []
+      split
+      · exact hok
+      · simp only [hx]; exact ratioCount_dvd x
+  have := Nat.div_add_mod x (desiredCount d)
+  omega
+
+/-- … but gpu-core next to a multi-device ratio IS rounded down: gpu-core = 50, gpu-memory-ratio = 300 asks 3 devices
+    with gpu-core 16 each (48 of the 50 requested) -/
+theorem shape_core_floor_counterexample :
+    ¬ (∀ (r : PodGPUReq) (g : GPUShape) (c p : Nat), podShape r = .ok g → r.co = some c → g.co = some p →
+        g.count * p = c) := by
+  intro h
+  have := h { nv := none, kg := none, sh := none, co := some 50, me := none, ra := some 300 }
+    { count := 3, shared := false, co := some 16, me := none, ra := some 100 } 50 16 (by decide) rfl rfl
+  omega
+
+/-- gpu-core without a memory dimension, vendor + koordinator names together, gpu-shared alone … are refused -/
+example : podShape { nv := none, kg := none, sh := none, co := some 50, me := none, ra := none } = .err := by decide
+example : podShape { nv := some 1, kg := none, sh := none, co := some 50, me := none, ra := some 50 } = .err := by decide
+example : podShape { nv := none, kg := some 150, sh := none, co := none, me := none, ra := none } = .err := by decide
+example : podShape { nv := none, kg := some 0, sh := none, co := none, me := none, ra := some 0 } = .skip := by decide
+example : podShape { nv := none, kg := some 200, sh := none, co := none, me := none, ra := none }
+    = .ok { count := 2, shared := false, co := some 100, me := none, ra := some 100 } := by decide
+example : podShape { nv := none, kg := none, sh := some 2, co := some 100, me := none, ra := some 60 }
+    = .ok { count := 2, shared := true, co := some 50, me := none, ra := some 30 } := by decide
+
+/-! ### the dry-run arithmetic: plain subtraction, reprieve = inverse of removal, what a reservation has left -/
+
+theorem qVal_sub (x y : Q) : qVal (qSub x y) = qVal x - qVal y := by
+  cases x <;> cases y <;> simp [qSub, qVal]
+
+theorem rlVal_sub (a b : RL) (k : Nat) : rlVal (rlSub a b) k = rlVal a k - rlVal b k := by
+  simp only [rlVal, rlSub, rlAt_zipPad qSub rfl, qVal_sub]
+
+theorem drSubtract_val (inp : DevRes) : ∀ (r : DevRes) (m k : Nat),
+    drVal (drSubtract r inp false) m k = drVal r m k - alSum inp m k := by
+  induction inp with
+  | nil => intro r m k; simp [drSubtract, alSum]
+  | cons e rest ih =>
+    intro r m k
+    obtain ⟨m', v⟩ := e
+    have ih' := ih
+    unfold drSubtract at ih' ⊢
+    simp only [List.foldl_cons, Bool.false_eq_true, if_false] at ih' ⊢
+    rw [ih']
+    simp only [alSum]
+    split
+    · rename_i hz
+      -- the entry became all-zero and is deleted: its value is 0 either way
+      have h0 := rlVal_of_isZero _ k hz
+      rw [rlVal_sub] at h0
+      simp only [drVal, drGetD, drGet_drErase]
+      by_cases h : m' = m
+      · subst h; simp only [drVal, drGetD] at h0 ⊢; simp [rlVal_nil]; omega
+      · have : ¬ m = m' := fun h2 => h h2.symm
+        simp [h, this]
+    · simp only [drVal, drGetD, drGet_drSet]
+      by_cases h : m' = m
+      · subst h; simp [rlVal_sub, drGetD]; omega
+      · simp [h]
+
+/-- reprieving a victim (AddPod) right after its removal (RemovePod) gives back the preemptible amounts there were:
+    the dry-run's two halves are inverse at every device and dimension -/
+theorem dry_reprieve_inverse (s : TState) (d : Dry) (p : Nat) (m k : Nat) :
+    drVal (dryAddPod s (dryRemovePod s d p none).2 p none).2.pre m k = drVal d.pre m k := by
+  unfold dryAddPod dryRemovePod
+  simp only [dryTarget]
+  by_cases he : (getUsed s p).isEmpty = true
+  · simp [he]
+  · simp only [he, Bool.false_eq_true, if_false]
+    rw [drSubtract_val, drAppend_val]; omega
+
+/-- what RestoreReservation finds left of a reservation: its record minus what the owner pods hold on its devices -/
+theorem restore_remained_val (s : TState) (rsv : Nat) (owners : List Nat) (ru : Reusable)
+    (h : restoreOne s rsv owners = some ru) (m k : Nat) :
+    drVal ru.remained m k = drVal ru.allocatable m k - alSum ru.allocated m k ∧ ru.allocatable = getUsed s rsv := by
+  unfold restoreOne at h
+  simp only [] at h
+  split at h
+  · simp at h
+  · simp only [Option.some.injEq] at h
+    subst h
+    exact ⟨drSubtract_val _ _ _ _, rfl⟩
 
 end KoordVerif.C07
